@@ -21,6 +21,8 @@ type UpConn struct {
 	Remote string
 	Start  time.Duration
 
+	hold *HoldWriter // TLS upstreams: lets the last record and the close_notify leave in one segment
+
 	mu       sync.Mutex
 	received []byte
 	sawEOF   bool
@@ -45,6 +47,27 @@ func (u *UpConn) SawEOF() (bool, time.Duration, string) {
 
 // Done is closed when the upstream's handler for this connection returned.
 func (u *UpConn) Done() <-chan struct{} { return u.done }
+
+// WriteLastAndCloseWrite writes the last piece of the upstream's stream and half-closes. On a TLS upstream created by
+// NewUpstreamTLS the last record and the close_notify alert leave in one TCP segment (what a server that answers and
+// closes at once produces), so that the peer's tls.Conn returns the bytes together with io.EOF from one Read.
+func (u *UpConn) WriteLastAndCloseWrite(b []byte) error {
+	if u.hold != nil {
+		u.hold.Hold()
+	}
+	_, err := u.Conn.Write(b)
+	if cw, ok := u.Conn.(interface{ CloseWrite() error }); ok {
+		if e := cw.CloseWrite(); err == nil {
+			err = e
+		}
+	}
+	if u.hold != nil {
+		if e := u.hold.Flush(); err == nil {
+			err = e
+		}
+	}
+	return err
+}
 
 // ReadOneRecord reads (and records) the first byte of the connection.
 func (u *UpConn) ReadOneRecord() {
@@ -82,6 +105,8 @@ type Upstream struct {
 	Network string
 	Addr    string // dial address in Caddy syntax, e.g. "tcp/127.0.0.1:1234" or "unix//path"
 	Handler func(*UpConn)
+
+	tlsCfg *tls.Config // NewUpstreamTLS: handshake done here, over a HoldWriter
 
 	mu    sync.Mutex
 	conns []*UpConn
@@ -126,6 +151,11 @@ func (up *Upstream) serve() {
 			return
 		}
 		uc := &UpConn{N: int(up.n.Add(1)), Conn: c, Start: vnet.Now(), done: make(chan struct{})}
+		if up.tlsCfg != nil {
+			uc.hold = &HoldWriter{Conn: c}
+			uc.Conn = tls.Server(uc.hold, up.tlsCfg)
+			c = uc.Conn
+		}
 		if c.RemoteAddr() != nil {
 			uc.Remote = c.RemoteAddr().String()
 		}
@@ -199,6 +229,19 @@ func EchoHandler(uc *UpConn) {
 			return
 		}
 	}
+}
+
+// NewUpstreamTLS starts a TLS server limited to maxVersion (0 = no limit) whose connections can send their last record
+// together with the close_notify (see WriteLastAndCloseWrite).
+func NewUpstreamTLS(cert *tls.Certificate, maxVersion uint16, handler func(*UpConn)) (*Upstream, error) {
+	l, err := net.Listen("tcp", "127.0.0.1:0")
+	if err != nil {
+		return nil, err
+	}
+	up := &Upstream{Network: "tls", Handler: handler, L: l, Addr: "tcp/" + l.Addr().String()}
+	up.tlsCfg = &tls.Config{Certificates: []tls.Certificate{*cert}, MaxVersion: maxVersion}
+	go up.serve()
+	return up, nil
 }
 
 // NewUpstreamOn serves an existing TCP listener.
